@@ -79,6 +79,23 @@ def run(pid, tier, mod):
                                                                              "args": args})
         if rc != 0 and not st.get("failcount"):
             harness_errors.append("harness %s rc=%d: %s" % (args, rc, out[-1500:]))
+    # replay tier: regression corpus (must pass) -- corpus/<pid>/*.json with {"case": {"witness": ...}}
+    cdir = os.path.join(build.VERIF, "corpus", pid)
+    if os.path.isdir(cdir):
+        for fn in sorted(os.listdir(cdir)):
+            if not fn.endswith(".json"):
+                continue
+            rec = json.load(open(os.path.join(cdir, fn)))
+            r = subprocess.run([exe, "--replay", rec["case"]["witness"]], stdout=subprocess.PIPE, stderr=subprocess.STDOUT)
+            merged["evaluations"] += 1
+            merged["classes"]["corpus-replay"] += 1
+            if r.returncode != 0:
+                o = r.stdout.decode(errors="replace")
+                cls = "crash:signal" if "FAIL " not in o else o[o.index("FAIL ") + 5:].split("\n")[0].strip()
+                if cls in known:
+                    merged["known_hits"][cls] += 1
+                else:
+                    failures.setdefault(cls, (rec["case"], {"class": cls, "corpus_file": fn, "output": o[-1500:]}))
     # confirm each failure 3x through --replay
     confirmed = {}
     for cls, (case, detail) in failures.items():
